@@ -620,8 +620,9 @@ class DictConverter(t.Generic[FromDataK, FromDataV], Converter[t.Mapping[FromDat
                 return self.v_conv.into_data(v)
 
         def _hashable(k: DataType) -> DataType:
-            # keys serialized to lists (e.g. frozenset keys) must stay usable as keys
-            return tuple(map(_hashable, k)) if isinstance(k, list) else k
+            # keys serialized to lists (e.g. frozenset keys) must stay usable as keys,
+            # also when the list sits inside a tuple key (e.g. `Tuple[FrozenSet[int], int]`)
+            return tuple(map(_hashable, k)) if isinstance(k, (list, tuple)) else k
 
         return {
             _hashable(_k_into_data(k)): _v_into_data(v)
